@@ -47,6 +47,8 @@ def check_text(text, intended=None, cols=None, deep=False):
         fail("decoding well-formed note data raised", "a list of notes", f"{type(e).__name__}: {e}")
         return fails
     got = [N.from_impl(n) for n in inotes]
+    if list(nd) != inotes:
+        fail("iterating the same note data a second time yields different notes", "same notes", "different")
     if got != model_notes:
         fail("decoded notes differ from one-note-per-non-zero-cell reading", model_notes[:12], got[:12])
         return fails
